@@ -465,35 +465,90 @@ Proof.
   constructor; [left; apply subclass_trans_IVE_family; exact Hs|constructor].
 Qed.
 
-(* the structural cleaner: whatever the embedded construction does, the wrapper lets out Ok / InvalidValueError *)
-Lemma ok_wrap_embedded : forall V extra m, ok V (wrap_embedded extra m).
+(* the structural cleaner: whatever the embedded construction / parse does, the wrapper lets out Ok / InvalidValueError *)
+Definition simple (m : M unit) : Prop := forall r, In r m -> r = Val tt \/ r = ive.
+
+Lemma simple_may : simple (may [K_InvalidValueError]).
+Proof. intros r [<-|[<-|[]]]; [left|right]; reflexivity. Qed.
+Lemma simple_fail : simple (fail K_InvalidValueError).
+Proof. intros r [<-|[]]. right; reflexivity. Qed.
+Lemma simple_ret : simple (ret tt).
+Proof. intros r [<-|[]]. left; reflexivity. Qed.
+Lemma simple_seq : forall m k, simple m -> simple k -> simple (seq m k).
 Proof.
-  intros. unfold wrap_embedded. apply ok_app.
-  - destruct (existsb is_val m); repeat constructor.
-  - destruct (extra || existsb (fun r => negb (is_val r)) m); [|constructor]. constructor; [left; reflexivity|constructor].
+  intros m k Hm Hk r Hr. unfold seq, bind in Hr. apply in_flat_map in Hr. destruct Hr as [x [Hx Hr]].
+  destruct (Hm x Hx) as [-> | ->]; [apply Hk; exact Hr|]. destruct Hr as [<-|[]]. right; reflexivity.
+Qed.
+Lemma simple_wrap_gen : forall A (okp : A -> bool) extra (m : M A), simple (wrap_gen okp extra m).
+Proof.
+  intros A okp extra m r Hin. unfold wrap_gen in Hin. apply in_app_or in Hin. destruct Hin as [Hin|Hin].
+  - destruct (existsb _ m); [destruct Hin as [<-|[]]; left; reflexivity|destruct Hin].
+  - destruct (extra || existsb _ m); [destruct Hin as [<-|[]]; right; reflexivity|destruct Hin].
+Qed.
+Lemma simple_seq_all : forall ms, Forall simple ms -> simple (seq_all ms).
+Proof. induction 1; simpl; [apply simple_ret|apply simple_seq; assumption]. Qed.
+Lemma simple_seq_all_map : forall A (f : A -> M unit) l, (forall a, simple (f a)) -> simple (seq_all (map f l)).
+Proof. intros. apply simple_seq_all. apply Forall_forall. intros m Hin. apply in_map_iff in Hin. destruct Hin as [a [<- _]]. apply H. Qed.
+
+Lemma simple_struct_list : forall subf v, (forall m, simple (subf m)) -> simple (struct_list subf v).
+Proof.
+  intros subf v Hs. unfold struct_list. destruct v; try apply simple_fail.
+  destruct l; [apply simple_fail|]. apply simple_seq_all_map. intros item. destruct item; try apply simple_fail. apply Hs.
 Qed.
 
-Lemma ok_clean_struct : forall fuel V R strictext classes ac io s ov, ok V (clean_struct fuel V R strictext classes ac io s ov).
+Lemma simple_struct_extensions : forall exts subf ac v, (forall c m, simple (subf c m)) -> simple (struct_extensions exts subf ac v).
 Proof.
-  intros. destruct fuel; simpl; [apply ok_may; repeat constructor|].
-  destruct ov as [v|]; [|apply ok_may; repeat constructor].
-  destruct (s_kind s); [apply ok_may; repeat constructor| |].
-  - destruct (class_named ckey classes); [|apply ok_may; repeat constructor].
-    destruct v; try (apply ok_fail; reflexivity). apply ok_wrap_embedded.
-  - destruct (class_named ckey classes); [|apply ok_may; repeat constructor].
-    destruct v; try (apply ok_fail; reflexivity).
-    assert (Hfold : forall l0, ok V (fold_right (fun (item : jvalue) (acc : M unit) =>
-              match item with
-              | JObj m => wrap_embedded (mem_key (us "custom_properties") m)
-                            (call_check m false ;;;
-                             construct V R (clean_struct fuel V R strictext classes) strictext (fun _ => TBad) c ac io m) ;;; acc
-              | _ => fail K_InvalidValueError
-              end) (ret tt) l0)).
-    { induction l0 as [|item r IH]; simpl; [apply ok_ret|].
-      destruct item; try (apply ok_fail; reflexivity).
-      apply ok_seq; [apply ok_wrap_embedded|exact IH]. }
-    destruct l as [|x l]; [apply ok_fail; reflexivity|apply Hfold].
+  intros exts subf ac v Hs. unfold struct_extensions. destruct v; try apply simple_fail; try apply simple_may.
+  apply simple_seq_all_map. intros kv.
+  destruct (find _ exts) as [x|].
+  - destruct (x_cls x); [|apply simple_may]. destruct (snd kv); try apply simple_fail. apply Hs.
+  - destruct (ustr_prefix _ _); [apply simple_may|]. destruct ac; [apply simple_ret|apply simple_fail].
 Qed.
+
+Lemma simple_struct_objects : forall ver20 ac parsef v, simple (struct_objects ver20 ac parsef v).
+Proof.
+  intros. unfold struct_objects. destruct v; try apply simple_fail; try apply simple_may.
+  - destruct l; [apply simple_fail|]. apply simple_seq_all_map. intros x.
+    destruct x; try apply simple_fail; try apply simple_may.
+    destruct m; [apply simple_fail|].
+    match goal with |- simple (if ?b then _ else _) => destruct b end; [apply simple_fail|].
+    match goal with |- simple (if ?b then _ else _) => destruct b end; [apply simple_fail|].
+    apply simple_wrap_gen.
+  - destruct m; [apply simple_fail|apply simple_may].
+Qed.
+
+Lemma simple_struct_observables : forall ac pof v, simple (struct_observables ac pof v).
+Proof.
+  intros. unfold struct_observables. destruct v; try apply simple_fail; try apply simple_may.
+  destruct m; [apply simple_fail|].
+  match goal with |- simple (if ?b then _ else _) => destruct b end; [|apply simple_fail].
+  cbv zeta. apply simple_seq_all_map. intros kv. apply simple_wrap_gen.
+Qed.
+
+Lemma simple_clean_struct : forall fuel V R strictext refuse classes ac io s ov,
+  simple (clean_struct fuel V R strictext refuse classes ac io s ov).
+Proof.
+  intros. destruct fuel; simpl; [apply simple_may|].
+  destruct ov as [v|]; [|apply simple_may].
+  destruct (s_kind s).
+  - apply simple_may.
+  - destruct (class_named ckey classes); [|apply simple_may].
+    destruct v; try apply simple_fail. apply simple_wrap_gen.
+  - destruct (class_named ckey classes); [|apply simple_may].
+    apply simple_struct_list. intros m. apply simple_wrap_gen.
+  - apply simple_struct_extensions. intros c m. apply simple_wrap_gen.
+  - apply simple_struct_objects.
+  - apply simple_struct_observables.
+Qed.
+
+Lemma simple_ok : forall V m, simple m -> ok V m.
+Proof.
+  intros V m H. apply Forall_forall. intros r Hr. destruct (H r Hr) as [-> | ->]; [exact I|left; reflexivity].
+Qed.
+
+Lemma ok_clean_struct : forall fuel V R strictext refuse classes ac io s ov,
+  ok V (clean_struct fuel V R strictext refuse classes ac io s ov).
+Proof. intros. apply simple_ok. apply simple_clean_struct. Qed.
 
 (* every outcome of a guarded model is in the family *)
 Lemma ok_all_guarded : forall A V (m : M A), all_guarded V -> ok V m ->
